@@ -577,3 +577,15 @@ package keeper
 //@ loop #1
 //@   invariant true
 //@   step[C18.dig.assoc] defined(res_AssociateOperatorWithStaker_0)
+
+// C03 (every undelegation request is recorded and released on its own): the parameters built from a native-token
+// message carry the message's OWN nonce (the signer's account sequence, which tells two requests of a block apart in the
+// completion-height and staker indexes) and the chain id, each in its own place.
+//@ func newDelegationParams
+//@   requires baseInfo != nil
+//@   flag noframe
+//@   flag pure=MustAccAddressFromBech32,Bytes,HexToAddress
+//@   before[C03.ndp.nonce] NewDelegationOrUndelegationParams requires arg_lzNonce == txNonce && arg_clientChainID == clientChainLzID && arg_txHash == txHash
+//@ loop #1
+//@   invariant true
+//@   step[C03.ndp.nonce] defined(res_NewDelegationOrUndelegationParams_0)
